@@ -20,3 +20,8 @@ func TestRule(t *testing.T) {
 }
 
 func TestReplay(t *testing.T) { replayMain(t) }
+
+func TestC07(t *testing.T) { search(t, "C07") }
+func TestC08(t *testing.T) { search(t, "C08") }
+func TestC09(t *testing.T) { search(t, "C09") }
+func TestC10(t *testing.T) { search(t, "C10") }
